@@ -5,6 +5,7 @@ CONSTANTS
  RCf <- RCDef
  MaxMods = 2
  RestoreOnFailure = TRUE
+ PalSelf = FALSE
  Faults <- NoFault
 INVARIANT C03_OutcomeIsExpected
 INVARIANT C03_EachModuleOnce
